@@ -23,7 +23,7 @@ ASSUMPTIONS = ["SuperMinHash2 ties between distinct items (64-bit collision of g
 
 
 def correspond(run):
-    n = 1200 if run.tier == "quick" else 12000
+    n = 1200 if run.depth == "quick" else 12000
     cases, codes = sklib.correspond_sk(run, n, "all")
     if cases is None:
         return
